@@ -277,8 +277,32 @@ def analyse_set_rng(cls, base_types, info=None, start_after=None):
 # ------------------------------------------------------------------------------------------------------
 # global RNG use
 # ------------------------------------------------------------------------------------------------------
+CALL_ROOTS = ("__call__", "forward", "get_params", "collate")
+
+
+def call_reachable(cls):
+    """names of methods (of kappadata classes in the MRO) transitively reachable from the call path via `self.<m>(...)`"""
+    bodies = {}
+    for c in reversed(kd_mro(cls)):
+        node = class_ast(c)
+        for fn in node.body:
+            if isinstance(fn, (ast.FunctionDef, ast.AsyncFunctionDef)):
+                bodies[fn.name] = fn
+    seen, todo = set(), [r for r in CALL_ROOTS if r in bodies]
+    while todo:
+        m = todo.pop()
+        if m in seen:
+            continue
+        seen.add(m)
+        for n in ast.walk(bodies[m]):
+            if isinstance(n, ast.Call) and is_self_attr(n.func) and n.func.attr in bodies:
+                todo.append(n.func.attr)
+    return seen
+
+
 def global_draws(cls):
     hits = []
+    reach = call_reachable(cls)
     for c in kd_mro(cls):
         node = class_ast(c)
         for fn in node.body:
@@ -298,8 +322,10 @@ def global_draws(cls):
                     hits.append(f"{c.__name__}.{fn.name}: {src}")
                 elif isinstance(f, ast.Attribute) and f.attr in TENSOR_INPLACE and "generator" not in kw:
                     hits.append(f"{c.__name__}.{fn.name}: .{f.attr}() without generator")
-                elif src in ("get_rng_from_global", "kappadata.utils.random.get_rng_from_global") and fn.name not in ("__init__", "worker_init_fn"):
-                    hits.append(f"{c.__name__}.{fn.name}: get_rng_from_global() outside __init__/worker_init_fn")
+                elif src in ("get_rng_from_global", "kappadata.utils.random.get_rng_from_global") and fn.name in reach:
+                    # deriving a generator from the global state is what construction / worker init are for;
+                    # on the call path it would make every call depend on (and consume) the global state
+                    hits.append(f"{c.__name__}.{fn.name}: get_rng_from_global() on the call path")
     return hits
 
 
@@ -318,24 +344,220 @@ def build_table():
             if info.abstract:
                 errors.append((name, "abstract set_rng (raise NotImplementedError): not a row; concrete subclasses are rows"))
                 continue
+            slot_list = [(s, k[0], k[1]) for s, k in sorted(sl.items())]
             row = {
                 "name": name,
                 "module": cls.__module__,
                 "kind": "transform" if issubclass(cls, KDTransform) else "collator",
                 "hasCell": has_cell(cls),
-                "slots": [(s, k[0], k[1]) for s, k in sorted(sl.items())],
+                "slots": slot_list,
                 "setsOwn": info.sets_own,
                 "forwards": sorted(info.forwards),
                 "partial": info.partial,
                 "raises": info.raises,
                 "globalDraw": global_draws(cls),
                 "notes": info.notes,
+                "source": "static",
             }
+            # what the code DOES decides (robust against refactorings the static reading cannot follow); the static reading
+            # stays as a cross-check and is the only source for classes that cannot be built here
+            if row["hasCell"] or slot_list:
+                dyn = dynamic_set_rng_facts(name, cls, slot_list, base_types)
+                if dyn is None:
+                    row["_pending"] = (cls, slot_list)
+                if dyn is not None:
+                    static_view = (row["setsOwn"], row["forwards"], row["raises"])
+                    row["setsOwn"] = dyn["setsOwn"] if row["hasCell"] else row["setsOwn"]
+                    row["forwards"] = sorted(dyn["forwards"])
+                    row["raises"] = dyn["raises"]
+                    row["source"] = "dynamic"
+                    row["notes"] = row["notes"] + dyn["notes"]
+                    if static_view != (row["setsOwn"], row["forwards"], row["raises"]):
+                        row["notes"].append(f"static reading differed: setsOwn/forwards/raises = {static_view}")
         except Exception as e:   # source not available etc.: emit the worst row
             row = {"name": name, "module": cls.__module__, "kind": "?", "hasCell": True, "slots": [], "setsOwn": False,
                    "forwards": [], "partial": {}, "raises": True, "globalDraw": [], "notes": [f"translator: {type(e).__name__}: {e}"]}
         rows.append(row)
+    # second pass: classes that cannot be constructed here inherit the observation made on a class running the same code
+    for row in rows:
+        pend = row.pop("_pending", None)
+        if pend is None:
+            continue
+        dyn = inherited_dynamic_facts(*pend)
+        if dyn is not None:
+            row["setsOwn"] = dyn["setsOwn"] if row["hasCell"] else row["setsOwn"]
+            row["forwards"] = sorted(dyn["forwards"])
+            row["raises"] = dyn["raises"]
+            row["source"] = "dynamic (observed on a class resolving set_rng to the same code)"
+        else:
+            row["notes"].append("class cannot be constructed in this environment: static reading only")
     return rows, errors
+
+
+# ------------------------------------------------------------------------------------------------------
+# dynamic refinement: what the resolved set_rng of a class DOES, observed on a real instance
+# ------------------------------------------------------------------------------------------------------
+def _probe_children():
+    """stochastic children of the four shapes a `set_rng` guard may treat differently"""
+    import kappadata.transforms as T
+    return [
+        ("leaf", lambda: T.KDRandomCrop(size=4)),
+        ("compose", lambda: T.KDComposeTransform([T.KDRandomCrop(size=4)])),
+        ("patchwise", lambda: T.PatchwiseTransform(patch_size=4, transform=T.KDRandomCrop(size=4))),
+        ("scheduled", lambda: T.KDScheduledTransform(transform=T.KDRandomCrop(size=4))),
+    ]
+
+
+def _probe_collator_children():
+    import kappadata.collators as C
+    return [("mix", lambda: C.KDMixCollator(mixup_alpha=0.8, mixup_p=1.0))]
+
+
+def _cells(obj, base_types, seen=None):
+    """all generator cells in the KD subtree below obj (obj included)"""
+    import numpy as np
+    seen = set() if seen is None else seen
+    out = []
+    if not isinstance(obj, base_types) or id(obj) in seen:
+        return out
+    seen.add(id(obj))
+    r = vars(obj).get("rng")
+    if isinstance(r, np.random.Generator):
+        out.append(r)
+    for v in vars(obj).values():
+        if isinstance(v, base_types):
+            out += _cells(v, base_types, seen)
+        elif isinstance(v, (list, tuple)):
+            for e in v:
+                out += _cells(e, base_types, seen)
+        elif isinstance(v, dict):
+            for e in v.values():
+                out += _cells(e, base_types, seen)
+    return out
+
+
+def _constructors(name, cls):
+    """ways to build an instance: the harness recipes for the class, then a no-argument call"""
+    out = []
+    try:
+        from .rngflow import recipes, collator_recipes
+        out += [th for _, th, _ in recipes().get(name, [])]
+        cr = collator_recipes()
+        if name in cr:
+            out.append(cr[name])
+    except Exception:
+        pass
+    out.append(lambda: cls())
+    return out
+
+
+def resolved_closure(cls, root="set_rng"):
+    """the function objects `root` resolves to on cls together with everything it (transitively) calls through `self.<m>(...)`.
+    Two classes with the same closure and the same slots run literally the same code on the same attribute names."""
+    seen, todo, out = set(), [root], []
+    while todo:
+        m = todo.pop()
+        if m in seen:
+            continue
+        seen.add(m)
+        f = inspect.getattr_static(cls, m, None)
+        if isinstance(f, (staticmethod, classmethod)):
+            f = f.__func__
+        if isinstance(f, property):
+            f = f.fget
+        if not inspect.isfunction(f):
+            continue
+        out.append(f)
+        try:
+            tree = ast.parse(textwrap.dedent(inspect.getsource(f)))
+        except (OSError, TypeError, SyntaxError):
+            continue
+        for n in ast.walk(tree):
+            if isinstance(n, ast.Call) and is_self_attr(n.func):
+                todo.append(n.func.attr)
+            elif is_self_attr(n) and isinstance(inspect.getattr_static(cls, n.attr, None), property):
+                todo.append(n.attr)
+    return tuple(sorted(id(f) for f in out))
+
+
+_DYN_CACHE = {}
+
+
+def dynamic_set_rng_facts(name, cls, slots, base_types):
+    key = (resolved_closure(cls), tuple(slots))
+    facts = _dynamic_set_rng_facts(name, cls, slots, base_types)
+    if facts is not None:
+        _DYN_CACHE.setdefault(key, facts)
+        return facts
+    return None
+
+
+def inherited_dynamic_facts(cls, slots):
+    """for a class that cannot be built here: the facts observed on another class that resolves set_rng to the very same code
+    (same function objects for set_rng and everything it calls on self) over the same slots"""
+    return _DYN_CACHE.get((resolved_closure(cls), tuple(slots)))
+
+
+def _dynamic_set_rng_facts(name, cls, slots, base_types):
+    """returns None (class cannot be built here) or {setsOwn, raises, forwards: set, notes}"""
+    import numpy as np
+    from kappadata.collators.base.kd_collator_base import KDCollatorBase
+    inst = None
+    for th in _constructors(name, cls):
+        try:
+            np.random.seed(123)
+            inst = th()
+            if type(inst) is cls:
+                break
+            inst = None
+        except Exception:
+            inst = None
+    if inst is None:
+        return None
+    facts = {"raises": False, "setsOwn": False, "forwards": set(), "notes": []}
+    sentinel = np.random.default_rng(987654321)
+    try:
+        inst.set_rng(sentinel)
+    except Exception as e:
+        facts["raises"] = True
+        facts["notes"].append(f"dynamic: set_rng raised {type(e).__name__}: {e}")
+        return facts
+    facts["setsOwn"] = vars(inst).get("rng") is sentinel
+    probes = _probe_collator_children() if issubclass(cls, KDCollatorBase) else _probe_children()
+    for slot, kind, fixed_cls in slots:
+        if slot not in vars(inst):
+            continue
+        original = vars(inst)[slot]
+        ok = True
+        if kind == "fixed":
+            s2 = np.random.default_rng(555)
+            try:
+                inst.set_rng(s2)
+                ok = all(c is s2 for c in _cells(original, base_types))
+            except Exception as e:
+                facts["raises"] = True
+                ok = False
+        else:
+            for pname, pth in probes:
+                child = pth()
+                injected = [child] if isinstance(original, (list, tuple)) else child
+                try:
+                    setattr(inst, slot, injected)
+                    s2 = np.random.default_rng(556)
+                    inst.set_rng(s2)
+                    cells = _cells(child, base_types)
+                    if not cells or not all(c is s2 for c in cells):
+                        ok = False
+                        facts["notes"].append(f"dynamic: slot '{slot}' does not reach a {pname} child")
+                except Exception as e:
+                    facts["raises"] = True
+                    ok = False
+                    facts["notes"].append(f"dynamic: set_rng with a {pname} child in '{slot}' raised {type(e).__name__}: {e}")
+                finally:
+                    setattr(inst, slot, original)
+        if ok:
+            facts["forwards"].add(slot)
+    return facts
 
 
 # python twin of Lean's rowOk (used only to point the failing-input search at offending rows)
